@@ -111,4 +111,108 @@ theorem shrunk_gen {PU PW PL G n10 : Nat} (hG : PL + G ≤ PU) (hW : PW + 2 ^ 64
   clear g3 g6 hR hNG
   omega
 
+/-! the three rounded products: the shrunk interval `[l+1, u-1]` is non-empty, contains `w`, and is wide enough for the
+digit-count bound (`10^17` for binary64, `10^9` for binary32) -/
+theorem interval_facts_f32 {m su c : Nat} (hm1 : 1 ≤ m) (hm2 : m < 2 ^ 24) (hsu : 39 ≤ su)
+    (hc : 2 ^ 63 ≤ c) :
+    rnd (if m = 2 ^ 23 then (4 * m - 1) * 2 ^ (su - 1) else (2 * m - 1) * 2 ^ su) c + 3
+        ≤ rnd ((2 * m + 1) * 2 ^ su) c
+    ∧ rnd (2 * m * 2 ^ su) c + 1 ≤ rnd ((2 * m + 1) * 2 ^ su) c
+    ∧ 10 * (rnd ((2 * m + 1) * 2 ^ su) c - 1) ≤ 10 ^ 9 *
+        (rnd ((2 * m + 1) * 2 ^ su) c - 1
+          - (rnd (if m = 2 ^ 23 then (4 * m - 1) * 2 ^ (su - 1) else (2 * m - 1) * 2 ^ su) c + 1)) := by
+  unfold rnd
+  obtain ⟨s1, rfl⟩ : ∃ s1, su = s1 + 1 := ⟨su - 1, by omega⟩
+  rw [Nat.add_sub_cancel]
+  have hK' : 2 ^ 101 ≤ 2 ^ s1 * c := by
+    have h := Nat.mul_le_mul (Nat.pow_le_pow_right (by decide : 0 < 2) (by omega : 38 ≤ s1)) hc
+    have e : (2 : Nat) ^ 38 * 2 ^ 63 = 2 ^ 101 := by decide
+    rw [e] at h
+    exact h
+  have eU : (2 * m + 1) * 2 ^ (s1 + 1) * c = (4 * m + 2) * (2 ^ s1 * c) := by rw [Nat.pow_succ]; ring
+  have eW : 2 * m * 2 ^ (s1 + 1) * c = 4 * m * (2 ^ s1 * c) := by rw [Nat.pow_succ]; ring
+  have eL1 : (2 * m - 1) * 2 ^ (s1 + 1) * c = (4 * m - 2) * (2 ^ s1 * c) := by
+    rw [Nat.pow_succ]
+    have : (2 * m - 1) * (2 ^ s1 * 2) = (4 * m - 2) * 2 ^ s1 := by
+      rw [Nat.sub_mul, Nat.sub_mul]; ring_nf
+    rw [this]; ring
+  have eL2 : (4 * m - 1) * 2 ^ s1 * c = (4 * m - 1) * (2 ^ s1 * c) := by ring
+  generalize 2 ^ s1 * c = K at *
+  have hMK : 4 * m * K ≤ 4 * 2 ^ 24 * K := Nat.mul_le_mul_right K (by omega)
+  have e1 : (4 * m + 2) * K = 4 * m * K + 2 * K := by ring
+  have e2 : (4 * m - 2) * K = 4 * m * K - 2 * K := by rw [Nat.sub_mul]
+  have e3 : (4 * m - 1) * K = 4 * m * K - K := by rw [Nat.sub_mul, Nat.one_mul]
+  have e4 : 4 * K ≤ 4 * m * K := by
+    calc 4 * K = 4 * 1 * K := by ring
+      _ ≤ 4 * m * K := Nat.mul_le_mul_right K (by omega)
+  by_cases hh : m = 2 ^ 23
+  · rw [if_pos hh, eU, eW, eL2]
+    have hm : 4 * m * K = 2 * 2 ^ 24 * K := by rw [hh]; ring
+    clear eU eW eL1 eL2 hsu hc
+    refine shrunk_gen (G := 3 * K) ?_ ?_ ?_ ?_
+    · omega
+    · omega
+    · omega
+    · show 10 * ((4 * m + 2) * K) + 3 * 10 ^ 9 * 2 ^ 64 + 10 * 2 ^ 64 ≤ 10 ^ 9 * (3 * K)
+      omega
+  · rw [if_neg hh, eU, eW, eL1]
+    clear eU eW eL1 eL2 hsu hc
+    refine shrunk_gen (G := 4 * K) ?_ ?_ ?_ ?_
+    · omega
+    · omega
+    · omega
+    · show 10 * ((4 * m + 2) * K) + 3 * 10 ^ 9 * 2 ^ 64 + 10 * 2 ^ 64 ≤ 10 ^ 9 * (4 * K)
+      omega
+
+theorem interval_facts_f64 {m su c : Nat} (hm1 : 1 ≤ m) (hm2 : m < 2 ^ 53) (hsu : 10 ≤ su)
+    (hc : 2 ^ 63 ≤ c) :
+    rnd (if m = 2 ^ 52 then (4 * m - 1) * 2 ^ (su - 1) else (2 * m - 1) * 2 ^ su) c + 3
+        ≤ rnd ((2 * m + 1) * 2 ^ su) c
+    ∧ rnd (2 * m * 2 ^ su) c + 1 ≤ rnd ((2 * m + 1) * 2 ^ su) c
+    ∧ 10 * (rnd ((2 * m + 1) * 2 ^ su) c - 1) ≤ 10 ^ 17 *
+        (rnd ((2 * m + 1) * 2 ^ su) c - 1
+          - (rnd (if m = 2 ^ 52 then (4 * m - 1) * 2 ^ (su - 1) else (2 * m - 1) * 2 ^ su) c + 1)) := by
+  unfold rnd
+  obtain ⟨s1, rfl⟩ : ∃ s1, su = s1 + 1 := ⟨su - 1, by omega⟩
+  rw [Nat.add_sub_cancel]
+  have hK' : 2 ^ 72 ≤ 2 ^ s1 * c := by
+    have h := Nat.mul_le_mul (Nat.pow_le_pow_right (by decide : 0 < 2) (by omega : 9 ≤ s1)) hc
+    have e : (2 : Nat) ^ 9 * 2 ^ 63 = 2 ^ 72 := by decide
+    rw [e] at h
+    exact h
+  have eU : (2 * m + 1) * 2 ^ (s1 + 1) * c = (4 * m + 2) * (2 ^ s1 * c) := by rw [Nat.pow_succ]; ring
+  have eW : 2 * m * 2 ^ (s1 + 1) * c = 4 * m * (2 ^ s1 * c) := by rw [Nat.pow_succ]; ring
+  have eL1 : (2 * m - 1) * 2 ^ (s1 + 1) * c = (4 * m - 2) * (2 ^ s1 * c) := by
+    rw [Nat.pow_succ]
+    have : (2 * m - 1) * (2 ^ s1 * 2) = (4 * m - 2) * 2 ^ s1 := by
+      rw [Nat.sub_mul, Nat.sub_mul]; ring_nf
+    rw [this]; ring
+  have eL2 : (4 * m - 1) * 2 ^ s1 * c = (4 * m - 1) * (2 ^ s1 * c) := by ring
+  generalize 2 ^ s1 * c = K at *
+  have hMK : 4 * m * K ≤ 4 * 2 ^ 53 * K := Nat.mul_le_mul_right K (by omega)
+  have e1 : (4 * m + 2) * K = 4 * m * K + 2 * K := by ring
+  have e2 : (4 * m - 2) * K = 4 * m * K - 2 * K := by rw [Nat.sub_mul]
+  have e3 : (4 * m - 1) * K = 4 * m * K - K := by rw [Nat.sub_mul, Nat.one_mul]
+  have e4 : 4 * K ≤ 4 * m * K := by
+    calc 4 * K = 4 * 1 * K := by ring
+      _ ≤ 4 * m * K := Nat.mul_le_mul_right K (by omega)
+  by_cases hh : m = 2 ^ 52
+  · rw [if_pos hh, eU, eW, eL2]
+    have hm : 4 * m * K = 2 * 2 ^ 53 * K := by rw [hh]; ring
+    clear eU eW eL1 eL2 hsu hc
+    refine shrunk_gen (G := 3 * K) ?_ ?_ ?_ ?_
+    · omega
+    · omega
+    · omega
+    · show 10 * ((4 * m + 2) * K) + 3 * 10 ^ 17 * 2 ^ 64 + 10 * 2 ^ 64 ≤ 10 ^ 17 * (3 * K)
+      omega
+  · rw [if_neg hh, eU, eW, eL1]
+    clear eU eW eL1 eL2 hsu hc
+    refine shrunk_gen (G := 4 * K) ?_ ?_ ?_ ?_
+    · omega
+    · omega
+    · omega
+    · show 10 * ((4 * m + 2) * K) + 3 * 10 ^ 17 * 2 ^ 64 + 10 * 2 ^ 64 ≤ 10 ^ 17 * (4 * K)
+      omega
+
 end LexVerif.Proof.GrisuCore
